@@ -316,3 +316,34 @@ example :
     okIds ((St.run { kind := .indexed } expiryRuleOps).findRules [("a", .num 1)] 10).2 = some ["q"] ∧
     ((St.run { kind := .indexed } expiryRuleOps).findRules [("a", .num 1)] 10).1.facts.map (·.1) = ["q"] := by
   constructor <;> decide +kernel
+
+/-! ## The clock reading and the state lock
+
+The model gives every operation one time `t`.  A real read has two instants: the moment `tg` at which it is granted
+the state lock (its linearisation point: what it sees is the state at `tg`) and the moment `tc` at which it read the
+clock it compares `expires` with.  The model's single `t` is sound for the real read exactly when `tg ≤ tc`: the clock
+is read after the lock was granted.  `Gen.clockReads` is regenerated from `core/state_indexed.go` and
+`core/state_linear.go` on every run and records, for every method that reads the clock into `now`, where that reading
+sits relative to the method's own `slock`. -/
+
+/-- **No state method reads the expiry clock before it takes the lock** (regenerated table; a method without a lock
+call of its own is a callee of locked sections). -/
+theorem clock_read_under_lock : ∀ r ∈ Gen.clockReads, r.2.2 ≠ "beforeLock" := by decide
+
+/-- the table covers both lookups of both implementations -/
+theorem clock_read_table_covers :
+    (Gen.clockReads.map (fun r => (r.1, r.2.1))) = [("indexed", "doFindRules"), ("indexed", "search"), ("linear", "doFindRules"), ("linear", "search")] := by
+  decide
+
+/-- **A read granted the lock at or after the expiry instant does not serve the item**, whenever its clock reading
+is not older than the grant: for `expires = e ≠ 0`, `e ≤ tg ≤ tc` makes the expiry test at `tc` say "expired". -/
+theorem read_after_grant_excludes_expired {m : Obj} {e : Int} (hm : m.get? "expires" = some (.num e)) (he : e ≠ 0)
+    (tg tc : Int) (hgrant : e ≤ tg) (hclock : tg ≤ tc) : checkExpiration m tc = .ok true := by
+  have h := (visible_iff_before hm he tc).1
+  rw [h]; simp [Gen.notAfterCmp]; omega
+
+/-- … and the hypothesis `tg ≤ tc` is needed: with a clock reading older than the grant (`tc < e ≤ tg`, the shape of a
+reading taken before waiting for the lock) the test says "not expired" and the item is served after its instant. -/
+theorem stale_clock_serves_expired :
+    ∃ (m : Obj) (e tc tg : Int), m.get? "expires" = some (.num e) ∧ e ≠ 0 ∧ tc < e ∧ e ≤ tg ∧ checkExpiration m tc = .ok false :=
+  ⟨[("k", .num 1), ("expires", .num 10)], 10, 9, 11, rfl, by decide, by decide, by decide, by decide⟩
